@@ -177,7 +177,7 @@ Proof.
   - inversion H; subst. simpl. rewrite app_nil_r.
     split; [exact Hc|]. split; [reflexivity|]. split; [intros ? []|]. intros k Hk. split; reflexivity.
   - destruct (has p (s_nodes m)) eqn:Ehp; cbn [negb] in H; [|discriminate].
-    destruct (step_model m (EAddNode 0 (pdf_node log p) (op_state (pdf_opid log p)) (p :: get_parents m p) None)) as [m1|] eqn:Es;
+    destruct (step_model m (EAddNode 0 (pdf_node log p) (op_state (pdf_opid log (dist_id m p))) (p :: get_parents m p) None)) as [m1|] eqn:Es;
       cbn [bind] in H; [|discriminate].
     inversion Hnd as [|? ? Hpr Hndr]; subst. inversion Hndn as [|? ? Hnr Hndnr]; subst.
     assert (Hnp : ~ In (pdf_node log p) (p :: get_parents m p)) by (apply Hsep; now left).
